@@ -207,6 +207,9 @@ REPLAYS["C18"] = checks_fmt.replay_doc
 from harness import checks_plan   # noqa: E402
 CHECKS["C16"] = checks_plan.check_c16
 REPLAYS["C16"] = replay_dynamic
+from harness import checks_multi   # noqa: E402
+CHECKS["C19"] = checks_multi.check_c19
+REPLAYS["C19"] = replay_dynamic
 CHECKS["C20"] = checks_plan.check_c20
 REPLAYS["C20"] = replay_dynamic
 from harness import checks_gen   # noqa: E402
